@@ -97,6 +97,9 @@ pub fn judge<E: EndianParse>(ctx: &mut Ctx, via: &str, m: &VersionModel, table: 
         if want_req.is_none() && want_def.is_none() && idx > 1 {
             ctx.count("versym:unknown-index");
         }
+        if want_req.is_some() && want_def.is_some() {
+            ctx.count("versym:index-in-both-sections");
+        }
         match (want_req, req) {
             (None, Ok(None)) => ctx.count("requirement:none"),
             (Some((need, aux)), Ok(Some(r))) => {
